@@ -668,8 +668,8 @@ def expected(form, tbl, policy, errorvalue=OMIT, selected=None, state='pure', ra
     Returns dict(rows=[header, row, ...], raises=None|[payload, ...], optional=k, log=[...]):
     `rows` are delivered in order; if `raises` is not None the exception surfaces at the next request after
     them and is that of ANY failing cell of the row (the statement does not say which of several failing cells
-    of one row is met first), where the last `optional` rows (produced by a generator for the failing input row before it failed)
-    may or may not have been delivered (any prefix of them).  `log` is the expected sequence of user-function
+    of one row is met first).  `optional` is 0: the rows a generator produced for the failing source row before
+    it raised are part of `rows` and must be delivered before the exception.  `log` is the expected sequence of user-function
     calls (and of the points where they raise) of the pass."""
     ctx = Ctx(state)
     old = swap_ctx(ctx)
